@@ -242,7 +242,7 @@ def run(tier):
                 for rep in range(reps):
                     jobs.append((cli, k, base + k, mode, (ci, rk, 3 + rep % 2)))
                     k += 1
-    nrand = 300 if tier == "quick" else 4000
+    nrand = 300 if tier == "quick" else 30000
     for i in range(nrand):
         jobs.append((cli, k, base + k, "none" if i % 2 == 0 else "zod", None))
         k += 1
